@@ -391,6 +391,53 @@ def gen_streams(ctx, pool, bigpool):
     return S
 
 
+def gen_pb_streams(ctx, pbm, pool):
+    """Payloads that are valid protobuf of a known message kind with semantically odd field values
+    (built by the driver from the descriptors: every domain, every kind; out-of-range enum numbers for
+    every enum field, huge integers, empty / oversized bytes, empty sub-messages, unknown fields, empty
+    kinds), each framed correctly and placed alone before a good frame or between good frames.
+    Class 'clean': nothing may raise, what the hub makes of the payload (message or None) and every
+    good frame must be delivered."""
+    rng = ctx.rng
+    small = [m for m in pool if len(m["ser"]) // 2 <= 64]
+    fr = lambda m: ["frame", m["frame"], m["ser"]]
+    R = fr(next(m for m in pool if m["name"] == "discovery.reset"))
+    seen, uniq = set(), []
+    for x in pbm:
+        if x["payload"] not in seen and len(x["payload"]) // 2 < 65536:
+            seen.add(x["payload"]); uniq.append(x)
+    enum = [x for x in uniq if x["cls"] == "enum"]
+    kind = [x for x in uniq if x["cls"] == "kind"]
+    rest = [x for x in uniq if x["cls"] in ("value", "unknown")]
+    if ctx.thorough:
+        singles, packed = enum + kind, rest
+    else:
+        # quick: every enum field just above its range and at int32 max, alone; every kind; a sample of the rest
+        singles = [x for x in enum if ("enum_max+1" in x["desc"] or "enum_int32max" in x["desc"]) and not x["desc"].endswith(":populated")]
+        light = [x for x in rest if len(x["payload"]) <= 800]
+        packed = kind + [x for x in enum if x not in singles] + rng.sample(light, min(120, len(light)))
+    S = []
+    two = [["sizes", []], ["every", 1]]
+    for x in singles:
+        S.append({"cls": "clean", "items": [["junk", x["payload"]], R], "chunkings": two, "pb": x["desc"]})
+    rng.shuffle(packed)
+    for i in range(0, len(packed), 8):
+        items = [fr(rng.choice(small))]
+        for x in packed[i:i + 8]:
+            items.append(["junk", x["payload"]])
+            if rng.random() < 0.7:
+                items.append(fr(rng.choice(small)))
+        items.append(R)
+        n = sum(len(item_bytes(it)) for it in items)
+        S.append({"cls": "clean", "items": items, "pb": "pack",
+                  "chunkings": [["sizes", []], ["every", rng.choice([1, 2, 3])] if n <= 4000 else ["every", 61],
+                                ["sizes", sorted(rng.randrange(0, n + 1) for _ in range(4))[:1] + [rng.randrange(1, 9)]]]})
+    classes = {"payloads_available": len(uniq), "payloads_used": len(singles) + len(packed),
+               "by_class_used": {c: sum(1 for x in singles + packed if x["cls"] == c) for c in ("enum", "kind", "value", "unknown")},
+               "streams": len(S)}
+    return S, classes
+
+
 # ---------------------------------------------------------------------------
 # Coq literals
 # ---------------------------------------------------------------------------
@@ -526,7 +573,7 @@ def run(ctx):
 
     # ---- real messages from the real hub and sender ---------------------------
     specs, nbig = message_specs(ctx)
-    r1 = C.run_impl("C01.py", {"messages": specs})
+    r1 = C.run_impl("C01.py", {"messages": specs, "pbmut": True})
     msgs = []
     excluded = []
     for sp, m in zip(specs, r1["messages"]):
@@ -552,6 +599,8 @@ def run(ctx):
         w = json.load(open(os.path.join(cdir, fn)))
         streams.append({"cls": w.get("cls", "trunc"), "items": w["items"], "corpus": fn, "chunkings": w.get("chunkings")})
     streams += gen_streams(ctx, pool, bigpool)
+    pb_streams, pb_classes = gen_pb_streams(ctx, r1.get("pbmut", []), pool)
+    streams += pb_streams
     for m in empty_msgs[:2]:
         # what the real sender writes for a message that serializes to nothing: a zero-length frame
         if m["frame"] == "acbe0000":
@@ -653,6 +702,9 @@ def run(ctx):
                 report("DevOutThread.ingest did not return (reception stops)", case, expected="ingest returns", observed="no return within 10 s")
                 continue
             if res["exc"]:
+                case["hub_parse_raised_on_payload"] = [p for p, oc in res["table"] if oc[0] == "raise"][:2]
+                if st.get("pb"):
+                    case["payload_kind"] = st["pb"]
                 report("an exception escaped DevOutThread.ingest (the reader thread dies): " + res["exc"], case,
                        expected="no exception", observed=res["exc"])
                 continue
@@ -764,6 +816,7 @@ def run(ctx):
                             "65..1024": sum(1 for x in sizes if 64 < x <= 1024), ">1024": sum(1 for x in sizes if x > 1024)},
         "items_by_kind": {k: sum(1 for st in streams for it in st["items"] if it[0] == k) for k in ("frame", "gap", "junk", "zero", "trunc", "raw")},
         "cases_hitting_model_branch": cov_hits,
+        "protobuf_value_mutation_payloads": pb_classes,
         "truncated_cases_reproducing_known_finding": n_finding_cases,
         "sweeps": {name: {"tokens": toks, "max_tokens": sweep_maxlen(ctx, name)} for name, toks in SWEEPS.items()},
         "sweep_streams": sweep_streams, "sweep_runs_all_chunkings": sweep_runs, "sweep_shards_in_coq": sweep_cases,
